@@ -7,6 +7,7 @@ import ast
 import re
 from typing import Any, Dict, List, Optional, Set, Tuple
 
+from ..cfg import reaching_defs
 from ..fmtmodel import FmtModel, Obj, Sym
 from ..model import AnalysisError, norm, short
 from ..report import Ctx
@@ -202,10 +203,16 @@ def run(ctx: Ctx) -> None:
             ctx.ob("R17.4", f"types:{cls}.{meth}|list punctuation", not bad,
                    msg=("" if not bad else f"{cls}.{meth} renders {bad[0][1]!r} for {_brief(bad[0][0])}: an empty list item, which does not parse back"), node=types.cls(cls), mod=types,
                    detail={"evaluated": len(res)})
-    names, res = cache[("FunctionType", "format")]
-    va = [out for fields, out in res if fields["vararg"]]
-    ctx.ob("R17.4", "types:FunctionType.format|vararg rendered as '...'", all("..." in o for o in va) and all(re.search(r"\(\.\.\.\)|, \.\.\.\)|[>a-z]\.\.\.\)", o) for o in va),
-           msg="a variadic function type is not rendered with '...' as the last item of its parameter list", node=types.cls("FunctionType"), mod=types)
+    for meth in ("format", "format_decl"):
+        names, res = cache[("FunctionType", meth)]
+        for nparams in (0, 1, 2):
+            va = [out for fields, out in res if fields["vararg"] and len(fields["parameters"]) == nparams]
+            # the C variadic marker is a list item of its own: "(...)" or "(a, ...)"; "(a...)" reads back as a parameter pack
+            pat = r"\(\.\.\.\)" if nparams == 0 else r", \.\.\.\)"
+            bad = [o for o in va if not re.search(pat, o)]
+            ctx.ob("R17.4", f"types:FunctionType.{meth}|vararg after {nparams} parameter(s) is its own list item", bool(va) and not bad,
+                   msg=(f"FunctionType.{meth} renders a variadic function with {nparams} parameter(s) as {bad[0]!r}: '...' directly after a parameter declares a parameter pack when parsed back, not a C variadic" if bad else "no variadic shape evaluated"),
+                   node=types.cls("FunctionType"), mod=types, detail={"evaluated": len(va)})
 
     # ---------------------------------------------------------------- R17.5
     ctx.rule("R17.5", "Parameter: declarator form when named, default appended", minimum=1)
@@ -223,12 +230,63 @@ def run(ctx: Ctx) -> None:
             bad.append((out, want))
     ctx.ob("R17.5", "types:Parameter.format", not bad, msg=f"Parameter.format renders {bad[0][0]!r}, expected {bad[0][1]!r}" if bad else "", node=types.cls("Parameter"), mod=types, detail={"evaluated": len(res)})
 
+    # ---------------------------------------------------------------- R17.7
+    # format() writes a type-id; the statement re-parses it in parameter and alias position.
+    # A type-id is "type-specifier-seq abstract-declarator?", and the abstract declarator of an
+    # array type is a '[...]' suffix: every parser site that reads a type-id in one of those
+    # positions must go on to the array suffix after the pointer/function part (sibling
+    # cross-check: the parameter parser is the reference implementation).
+    from ..pmodel import ParserModel
+    pm = ParserModel(ctx.repo)
+    ctx.rule("R17.7", "type-id positions (parameter, alias) accept the array suffix that format() writes", minimum=2)
+    for fname, built in (("_parse_parameter", "Parameter / TemplateNonTypeParam"), ("_parse_using_typealias", "UsingAlias")):
+        cfg = pm.cfg(fname)
+        cv = [n for n in cfg.nodes for c, r in pm.node_calls(fname, n) if r is not None and r[0] == "self" and r[1] in ("_parse_cv_ptr", "_parse_cv_ptr_or_fn")]
+        arr = [n for n in cfg.nodes for c, r in pm.node_calls(fname, n) if r is not None and r == ("self", "_parse_array_type")]
+        ok = bool(cv) and bool(arr)
+        why = f"{fname} never calls _parse_array_type"
+        if ok:
+            guarded = []
+            for a in arr:
+                deps = cfg.control_deps(a)
+                tests = [d for d, lab in deps if lab == "T"]
+                # the test is on a token obtained with token_if('[')
+                rd = reaching_defs(cfg)
+                good = False
+                for t in tests:
+                    for x in ast.walk(t.cond):
+                        if isinstance(x, ast.Name):
+                            for di in rd.get(t.id, {}).get(x.id, ()):
+                                dn = cfg.nodes[di]
+                                if dn.stmt is not None and "token_if('[')" in norm(dn.stmt):
+                                    good = True
+                guarded.append(good and any(_reaches(c0, a) for c0 in cv))
+            ok = any(guarded)
+            why = f"{fname} does not reach _parse_array_type under a token_if('[') test after the pointer part"
+        ctx.ob("R17.7", f"parser:CxxParser.{fname}|array suffix of a type-id ({built})", ok,
+               msg=f"{why}: '{'using A = int[3];' if 'alias' in fname else 'void f(int[3]);'}' - which is what format() writes for an array type in this position - is rejected",
+               node=pm.fn(fname), mod=pm.mod)
+
     # ---------------------------------------------------------------- R17.6
     from . import c16
     from ..report import SubCtx
     # the families already listed for C16 are the same defect seen through Value.format(); they stay keyed under C16 only
     drop = {k["key"] for k in _known()}
     c16.run(SubCtx(ctx, {"R16.1": ("R17.6", "token values inside types re-lex to the same tokens (pair analysis of C16)")}, drop))  # type: ignore[arg-type]
+
+
+def _reaches(a, b) -> bool:
+    seen = set()
+    st = [a]
+    while st:
+        x = st.pop()
+        if x is b:
+            return True
+        if x.id in seen:
+            continue
+        seen.add(x.id)
+        st.extend(s for s, lab in x.succ if lab != "exc")
+    return False
 
 
 def _known():
